@@ -566,8 +566,11 @@ type caseData struct {
 	Base  string      `json:"base,omitempty"`
 	Split bool        `json:"split,omitempty"`
 	Order uint64      `json:"order,omitempty"`
-	Lo    int         `json:"lo,omitempty"` // combos: slice of the fixed list
+	Lo    int         `json:"lo,omitempty"` // combos / hostmap: slice of the fixed list
 	Hi    int         `json:"hi,omitempty"`
+
+	// the host's own map (hostmap.go)
+	Steps []hmStep `json:"steps,omitempty"`
 }
 
 func nameKindSig(ni nameInfo) string {
@@ -1473,6 +1476,27 @@ func worker(kind string, data json.RawMessage) any {
 		for i := 0; i < c.N; i++ {
 			runCombo(o, genCombo(r, all), all)
 		}
+	case "hostmap":
+		shapes := fixedHostShapes()
+		seqs := fixedHostSeqs()
+		for i := c.Lo; i < c.Hi; i++ {
+			if i < len(shapes) {
+				hostMapInvariant(o, shapes[i])
+			}
+			if i < len(seqs) {
+				runHostSeq(o, seqs[i])
+			}
+		}
+		r := mon.NewRand(c.Seed)
+		for i := 0; i < c.N; i++ {
+			hostMapInvariant(o, genHostStep(r, all))
+			runHostSeq(o, genHostSeq(r, all))
+		}
+	case "hostmap1":
+		if len(c.Steps) == 1 {
+			hostMapInvariant(o, c.Steps[0])
+		}
+		runHostSeq(o, c.Steps)
 	case "combo1":
 		runCombo(o, comboSpec{Deny: c.Deny, Overs: c.Overs, Base: c.Base, Split: c.Split, Order: c.Order, Seed: c.Seed}, all)
 	case "nested":
@@ -1518,6 +1542,7 @@ func drive(d *mon.Driver, replay string) int {
 		"WithGlobals(G) + WithoutGlobal(\"mod.member\") edits the caller's module object in G in place; this is counted as information (info:caller-module-object-edited-in-place), the statement speaks about default globals of independent configurations",
 		"scripts only obtain references, they never call the denied functions; all evaluations run on a VirtualOS",
 		"combined configurations (deny sets x overrides with valid and unconvertible values x default / WithoutDefaultGlobals+WithGlobals(G) / defaults+host globals x shuffled option order): every denied name must be unreachable and unlisted whatever else the configuration contains or rejects; overrides with a value that is valid where it is used must take effect unless the configuration holds a dotted override that Config.init rejects (it stops at the first such override, the others are applied or not depending on map order: either accepted) or a top-level value the VM rejects (every evaluation fails: accepted)",
+		"the caller's map given to WithGlobals must have exactly the keys and values (by identity) it had, after NewConfig and every Config accessor, risor.Eval, EvalCode and Call; and when one host map is reused for two or three configurations in a row each of them must expose the names and give the script outcomes that the same options give with a fresh equivalent map (dotted denials / overrides in these sequences only name members of default modules)",
 		"a name that is both denied and overridden is pinned to what the unchanged tree does: a top-level name ends up replaced, a dotted name ends up removed; the original object is never visible",
 		"a dotted override whose value object.FromGoType cannot convert (Go func, struct, []int, chan, an object.Error, ...) is silently ignored by the configuration and the original stays visible: counted as information (info:dotted-override-with-unconvertible-value-silently-ignored), the statement speaks about a replacement that was installed",
 	}
@@ -1556,6 +1581,18 @@ func drive(d *mon.Driver, replay string) int {
 		perC := d.N(15, 100)
 		for i := 0; i < nCombo; i += perC {
 			cases = append(cases, mon.NewCase(fmt.Sprintf("combos-%d", i), "combos", caseData{Kind: "combos", Seed: r.Uint64(), N: perC}))
+		}
+		nHM := len(fixedHostShapes())
+		if n := len(fixedHostSeqs()); n > nHM {
+			nHM = n
+		}
+		for lo := 0; lo < nHM; lo += 8 {
+			cases = append(cases, mon.NewCase(fmt.Sprintf("hostmap-fixed-%d", lo), "hostmap", caseData{Kind: "hostmap", Lo: lo, Hi: lo + 8}))
+		}
+		nHS := d.N(80, 2000)
+		perH := d.N(8, 50)
+		for i := 0; i < nHS; i += perH {
+			cases = append(cases, mon.NewCase(fmt.Sprintf("hostmap-%d", i), "hostmap", caseData{Kind: "hostmap", Seed: r.Uint64(), N: perH}))
 		}
 		nSub := d.N(100, 5000)
 		per := d.N(5, 50)
@@ -1597,7 +1634,7 @@ func drive(d *mon.Driver, replay string) int {
 			d.Distinct(k)
 		}
 		for _, s := range o.Samples {
-			if c.Kind == "names" || c.Kind == "subsets" || c.Kind == "combos" {
+			if c.Kind == "names" || c.Kind == "subsets" || c.Kind == "combos" || c.Kind == "hostmap" {
 				d.Sample(s)
 			}
 		}
